@@ -1,4 +1,4 @@
-/- REGENERATED on every run by `corr C01.tables` from the code in /work/seed-C01. Do not edit. -/
+/- REGENERATED on every run by `corr C01.tables` from the code in /repo. Do not edit. -/
 namespace Generated.C01
 def opWrite : Nat := 1966081
 def opWriteNoExtend : Nat := 1
